@@ -37,7 +37,7 @@ func runHistory(w *bufio.Writer, id int, profile string, seed uint64, nOps int, 
 			if i >= nOps {
 				break
 			}
-			o = g.Next()
+			o = g.SafeNext()
 		}
 		nx, nt := len(e.xfers), len(e.trace)
 		e.ctx = e.ctx.WithEventManager(sdk.NewEventManager())
@@ -159,6 +159,7 @@ func main() {
 			p = profileOrder[id%len(profileOrder)]
 		}
 		s := *seed*1000003 + uint64(id)*7919 + 17
+		extremeFunds = (p == "extreme")
 		nops := *ops
 		if *det > 1 {
 			// the same history several times in this process: every line of the log must be identical
